@@ -6,9 +6,9 @@ member = {"name", "kind", "async", "params", "decos", "owner"}
   kind   : function | method | static | class | pget | pset | pdel | init | new
   params : [{"name", "kind": po|pk|va|ko|vk, "default": bool}]  (self/cls included)
   decos  : nearest-the-function first: ["pre", cond] | ["post", cond] | ["snap", snap] | ["foreign", tag]
-cond   = {"id", "args": [names], "err": default|class|instance|factory, "form": def|lambda|adef|aw, "eargs": [names]}
+cond   = {"id", "args": [names], "err": default|class|instance|factory, "form": def|lambda|adef|aw|awo (awo: returns an awaitable object that is not a coroutine), "eargs": [names]}
 snap   = {"id", "name", "args": [names], "form": def|lambda|adef|aw}
-class  = {"name", "bases": [names], "dbc": bool, "invs": [inv nearest-first], "members": [member], "flavor": plain|slots}
+class  = {"name", "bases": [names], "dbc": bool, "root": dbc|metaclass|mixin-metaclass (how a root gets the meta-class), "invs": [inv nearest-first], "members": [member], "flavor": plain|slots}
 inv    = {"id", "check_on": CALL|SETATTR|ALL, "err", "self": bool, "form": def|lambda}
 """
 import importlib.util
@@ -108,6 +108,8 @@ def render_helpers(c: Dict[str, Any], role: str, out: List[str]) -> None:
                 cid, ", ".join(args), cid, got_text(args)))
         elif form == "aw":
             out.append("def c_{}({}):\n    return HUB.acond({!r}, {})\n".format(cid, ", ".join(args), cid, got_text(args)))
+        elif form == "awo":
+            out.append("def c_{}({}):\n    return HUB.awaitable_cond({!r}, {})\n".format(cid, ", ".join(args), cid, got_text(args)))
     def earg_sig(eargs):
         # parameters of the factory that name call values may carry defaults; they must receive the call values all the same
         dflt = [n for n in eargs if n in c.get("edefaults", [])]
@@ -230,6 +232,10 @@ import icontract
 EDEFAULT = object()  # default value of error-factory parameters that name call values
 
 
+class PLAIN_MIXIN:
+    """A base that was not created through the inheriting meta-class."""
+
+
 def MK(kind, *args, **kwargs):
     return getattr(icontract, kind)(*args, **kwargs)
 
@@ -267,7 +273,9 @@ def render(prog: Dict[str, Any]) -> str:
             out.append("    " + deco_text("inv", inv) + "\n")
         bases = list(cls.get("bases", []))
         if not bases and cls.get("dbc", True):
-            bases = ["icontract.DBC"]
+            # a root of a contract-inheriting hierarchy: derived from DBC, or created through the meta-class directly
+            bases = {"dbc": ["icontract.DBC"], "metaclass": ["metaclass=icontract.DBCMeta"],
+                     "mixin-metaclass": ["PLAIN_MIXIN", "metaclass=icontract.DBCMeta"]}[cls.get("root", "dbc")]
         for extra in cls.get("extra_bases", []):
             bases.append(extra)
         for line in cls.get("class_decos", []):
